@@ -275,7 +275,16 @@ def contributions(ctx: Ctx, f: FunctionInfo) -> List[Contrib]:
         elif n.kind == "stmt" and isinstance(a, ast.Assign) and len(a.targets) == 1 and isinstance(a.targets[0], ast.Name):
             cp = comp_parts(a.value)
             if cp is not None:
-                out.append(Contrib(a.targets[0].id, n, cp[0], cp[1], cp[2]))
+                c_ = Contrib(a.targets[0].id, n, cp[0], cp[1], cp[2])
+                c_.overwrites = any(fr.kind == "loop" for fr in n.frames)  # type: ignore[attr-defined]  # `S = {...}` inside a loop
+                out.append(c_)
+        elif n.kind == "stmt" and isinstance(a, ast.AugAssign) and isinstance(a.op, ast.BitOr) and isinstance(a.target, ast.Name):
+            # `S |= {e for ...}` / `S |= other`: an in-place union, the same as S.update(...)
+            cp = comp_parts(a.value)
+            if cp is not None:
+                out.append(Contrib(a.target.id, n, cp[0], cp[1], cp[2]))
+            else:
+                out.append(Contrib(a.target.id, n, a.value, [], []))
     return out
 
 
@@ -363,6 +372,10 @@ def r1(ctx: Ctx, rid: str = "C05.R1") -> None:
         ctx.ob(rid, f, f"{sname} is populated", mine[0].node if mine else None, bool(mine),
                f"{sname} receives elements", nontrivial=False, text=attr)
         for c in mine:
+            if getattr(c, "overwrites", False):
+                ctx.ob(rid, f, f"{sname} is only ever extended", c.node, False,
+                       f"`{c.node.text[:60]}` re-assigns the set inside a loop: what earlier iterations (older retained snapshots) "
+                       "contributed is dropped, their files look unreachable", text=attr + ":overwrite")
             a = c.node
             org = sl.origins(c.elt, a.id)
             ok_src = any(isinstance(x, ast.Attribute) and x.attr == attr for e in list(org["exprs"]) + [c.elt] for x in ast.walk(e))
